@@ -349,7 +349,7 @@ def gen_histories(ctx, count):
 def deep_tail(ctx, hcmd, dcmd):
     from concurrent.futures import ThreadPoolExecutor
     q = ctx.quick
-    hist = gen_histories(ctx, 120 if q else 1500)
+    hist = gen_histories(ctx, 120 if q else 500)
     confs = [["conf %d 0" % (N * 64), "thr " + " ".join(w), "thr " + " ".join(r)] for N, w, r, o in hist]
     first = vlib.run_cases(hcmd, [c + ["sched opseq " + " ".join(map(str, o)), "run"]
                                   for c, (N, w, r, o) in zip(confs, hist)])
@@ -365,7 +365,7 @@ def deep_tail(ctx, hcmd, dcmd):
 
     def explore(job):
         c, N, pre, full = job
-        g = vlib.explore_schedules(hcmd, c, 2, max_runs=250 if q else 1500, start_prefix=pre, workers=1)
+        g = vlib.explore_schedules(hcmd, c, 2, max_runs=250 if q else 600, start_prefix=pre, workers=1)
         out = [{"conf": c, "sched": "replay " + " ".join(s), "kind": "deep-tail", "wf": True, "N": N} for s, _ in g]
         return out, g.exhausted
     with ThreadPoolExecutor(vlib.NPROC) as ex:
@@ -383,7 +383,7 @@ def deep_tail(ctx, hcmd, dcmd):
                          "N": N, "kill": 1})
             stats["writer_crash_points"] += 1
     ctx.cov["deep_tail"] = stats
-    vlib.conc_correspondence(ctx, hcmd, dcmd, runs, judge=judge, label="tieC_deep_tail", escalate=False)
+    vlib.conc_correspondence_batched(ctx, hcmd, dcmd, runs, judge=judge, label="tieC_deep_tail", escalate=False)
 
 
 def load_corpus():
